@@ -653,7 +653,7 @@ fn check_negative(src: &Sources, fam: &str, st: &mut Stats) -> Vec<Violation> {
 pub fn run(ctx: &Ctx) -> i32 {
     let mut acc = Acc::new(ctx);
     let wl = Recursion {
-        n: if ctx.quick() { 4000 } else { 1_000_000 },
+        n: if ctx.quick() { 20_000 } else { 1_000_000 },
     };
     acc.pool(&wl, "c09", true);
     if acc.stats.get("uncuttable_rejected") == 0 {
